@@ -62,7 +62,6 @@ func init() {
 			"in every state: catalog listing = device scan = listing of a freshly loaded catalog on the same root, and every existing bucket can be queried. " +
 			"concurrent part: three thread sets of catalog operations (create || write-new-year; + destroy; destroy || query || create) on the real catalog, ALL interleavings with <=2 deviations (thorough 3), same invariant on the end state. non-trivial = sequences of >=2 operations / schedules with >=1 deviation",
 		Assume:   []string{"UTC", "BackgroundSync=false", "states merged by canonical form have the same futures: the canonical form holds everything the operations read (files, headers, catalog tree)"},
-		Shards:   1,
 		QuickMax: 6 * time.Minute, ThorMax: 30 * time.Minute,
 	}, func(c *mc.Ctx, yield func(schedSpec)) {
 		c17Enum(c, func(s c17Spec) { yield(schedSpec{Scen: -1, Prefix: s.Seq, Single: true}) })
